@@ -114,9 +114,9 @@ theorem first_error_stops_worker (o₁ o₂ : List Bool) (h : true ∉ o₁) :
   ready `select` cases, the caller's `cancel` at any point (or several times, or never). -/
 
 /-- FULL statement: whenever RunOnRange returns nil, the handler was called on every sub-range.
-    It is FALSE for the code that exists (`nil_result_implies_complete_fails`): the producer's
-    `case <-ctx.Done(): break Loop` records nothing, so if it is taken while the channel is empty and no handler
-    notices the cancellation, every worker leaves with a nil error. -/
+    It was FALSE for the code as found: the producer's `case <-ctx.Done(): break Loop` recorded nothing, so when it was
+    taken while the channel was empty and no handler noticed the cancellation, every worker left with a nil error.
+    Repaired in client-go 52411fe (the producer remembers `ctx.Err()`); proved below as `nil_result_implies_complete_holds`. -/
 def nil_result_implies_complete : Prop :=
   ∀ (tasks : List Task) (workers : Nat), 1 ≤ workers → ∀ sched : List RunEv,
     ((RunSt.init tasks workers).run sched).done = true → ((RunSt.init tasks workers).run sched).resultNil = true →
@@ -134,7 +134,8 @@ theorem nil_result_implies_complete_partial (tasks : List Task) (workers : Nat) 
   generalize (RunSt.init tasks workers).run sched = st at *
   obtain ⟨ha, hb, hc, hd⟩ := hinv
   simp only [RunSt.done, Bool.and_eq_true, beq_iff_eq] at hdone
-  simp only [RunSt.resultNil, beq_iff_eq] at hnil
+  simp only [RunSt.resultNil, Bool.and_eq_true, beq_iff_eq] at hnil
+  obtain ⟨hnil, _⟩ := hnil
   obtain ⟨⟨hcl, hi⟩, hbz⟩ := hdone
   have hok : 0 < st.okExit := by omega
   have hq := (hc hok).2
@@ -151,11 +152,20 @@ theorem nil_result_implies_complete_partial (tasks : List Task) (workers : Nat) 
 example : ((RunSt.init [⟨[], [0x6d]⟩, ⟨[0x6d], []⟩] 1).run
     [.push, .pull, .push, .finish false, .pull, .cancel, .finish false, .pull]).done = true := by decide
 
-/-- … and the full statement fails: cancel, producer takes `ctx.Done()`, the idle worker finds the channel closed. -/
-theorem nil_result_implies_complete_fails : ¬ nil_result_implies_complete := by
-  intro h
-  have := h [⟨[], []⟩] 1 (Nat.le_refl 1) [.cancel, .abandon, .pull] (by decide) (by decide) ⟨[], []⟩ (by simp)
-  revert this; decide
+/-- … and, since the repair of RunOnRange (a producer that leaves through `ctx.Done()` makes the result the context's
+    error), the FULL statement: for every schedule and every cancel point a nil result means that the handler was called on
+    every sub-range.  (Before the repair the schedule `cancel, abandon, pull` refuted it: known_findings.json
+    C14-runonrange-nil-after-producer-abandons, fixed.) -/
+theorem nil_result_implies_complete_holds : nil_result_implies_complete := by
+  intro tasks workers hw sched hdone hnil
+  have hab : ((RunSt.init tasks workers).run sched).abandoned = false := by
+    simp only [RunSt.resultNil, Bool.and_eq_true, Bool.not_eq_true'] at hnil
+    exact hnil.2
+  exact nil_result_implies_complete_partial tasks workers hw sched hdone hnil hab
+
+/-- the schedule that used to refute it now ends with an error -/
+example : ((RunSt.init [⟨[], []⟩] 1).run [.cancel, .abandon, .pull]).done = true ∧
+    ((RunSt.init [⟨[], []⟩] 1).run [.cancel, .abandon, .pull]).resultNil = false := by decide
 
 /-- If the caller's context is cancelled while a sub-range sits in the channel, RunOnRange cannot return nil,
     whatever happens afterwards: a worker that pulls a sub-range under a done context keeps `ctx.Err()`.
@@ -175,11 +185,15 @@ theorem cancel_with_queued_subrange_reported (tasks : List Task) (workers : Nat)
   obtain ⟨_, _, hc, hd⟩ := hinv
   simp only [RunSt.done, Bool.and_eq_true, beq_iff_eq] at hdone
   obtain ⟨⟨_, hi⟩, hbz⟩ := hdone
-  simp only [RunSt.resultNil, beq_eq_false_iff_ne, ne_eq]
-  intro he
-  rcases hk with h | h
-  · omega
-  · exact h.1 (hc (by omega)).2
+  cases hr : st.resultNil with
+  | false => rfl
+  | true =>
+    exfalso
+    simp only [RunSt.resultNil, Bool.and_eq_true, beq_iff_eq] at hr
+    have he := hr.1
+    rcases hk with h | h
+    · omega
+    · exact h.1 (hc (by omega)).2
 
 example : ((RunSt.init [⟨[], [0x6d]⟩, ⟨[0x6d], []⟩] 1).run [.push, .pull, .push]).queue ≠ [] := by decide
 
